@@ -112,13 +112,18 @@ func (cl concurrentWriter) Write(al plugintypes.AuditLog) error {
 
 var _ plugintypes.AuditLogWriter = (*concurrentWriter)(nil)
 
-// fileNameSafeID replaces the path separators of a transaction id so that it can be part of a file name.
+// fileNameSafeID encodes the bytes of a transaction id that a file name cannot carry (path separators,
+// NUL) as %XX, and the percent sign itself, so that distinct ids keep distinct file names.
 func fileNameSafeID(id string) string {
-	safe := []byte(id)
-	for i, c := range safe {
-		if c == '/' || c == '\\' || c == 0 {
-			safe[i] = '_'
+	const hex = "0123456789ABCDEF"
+	safe := make([]byte, 0, len(id))
+	for i := 0; i < len(id); i++ {
+		c := id[i]
+		if c == '/' || c == '\\' || c == 0 || c == '%' {
+			safe = append(safe, '%', hex[c>>4], hex[c&0x0f])
+			continue
 		}
+		safe = append(safe, c)
 	}
 	return string(safe)
 }
